@@ -5,6 +5,7 @@ import (
 
 	"github.com/novifinancial/serde-reflection/serde-generate/runtime/golang/bincode"
 	"github.com/novifinancial/serde-reflection/serde-generate/runtime/golang/serde"
+	"github.com/rpcpool/yellowstone-faithful/parse_legacy_transaction_status_meta/boundedbincode"
 	"k8s.io/klog/v2"
 )
 
@@ -81,7 +82,7 @@ func BincodeDeserializeCompiledInstruction(input []byte) (CompiledInstruction, e
 		var obj CompiledInstruction
 		return obj, fmt.Errorf("Cannot deserialize null array")
 	}
-	deserializer := bincode.NewDeserializer(input)
+	deserializer := boundedbincode.NewDeserializer(input)
 	obj, err := DeserializeCompiledInstruction(deserializer)
 	if err == nil && deserializer.GetBufferOffset() < uint64(len(input)) {
 		return obj, fmt.Errorf("Some input bytes were not read")
@@ -143,7 +144,7 @@ func BincodeDeserializeInnerInstructions(input []byte) (InnerInstructions, error
 		var obj InnerInstructions
 		return obj, fmt.Errorf("Cannot deserialize null array")
 	}
-	deserializer := bincode.NewDeserializer(input)
+	deserializer := boundedbincode.NewDeserializer(input)
 	obj, err := DeserializeInnerInstructions(deserializer)
 	if err == nil && deserializer.GetBufferOffset() < uint64(len(input)) {
 		return obj, fmt.Errorf("Some input bytes were not read")
@@ -440,7 +441,7 @@ func BincodeDeserializeInstructionError(input []byte) (InstructionError, error) 
 		var obj InstructionError
 		return obj, fmt.Errorf("Cannot deserialize null array")
 	}
-	deserializer := bincode.NewDeserializer(input)
+	deserializer := boundedbincode.NewDeserializer(input)
 	obj, err := DeserializeInstructionError(deserializer)
 	if err == nil && deserializer.GetBufferOffset() < uint64(len(input)) {
 		return obj, fmt.Errorf("Some input bytes were not read")
@@ -1747,7 +1748,7 @@ func BincodeDeserializeResult(input []byte) (Result, error) {
 		var obj Result
 		return obj, fmt.Errorf("Cannot deserialize null array")
 	}
-	deserializer := bincode.NewDeserializer(input)
+	deserializer := boundedbincode.NewDeserializer(input)
 	obj, err := DeserializeResult(deserializer)
 	if err == nil && deserializer.GetBufferOffset() < uint64(len(input)) {
 		return obj, fmt.Errorf("Some input bytes were not read")
@@ -1974,7 +1975,7 @@ func BincodeDeserializeTransactionError(input []byte) (TransactionError, error) 
 		var obj TransactionError
 		return obj, fmt.Errorf("Cannot deserialize null array")
 	}
-	deserializer := bincode.NewDeserializer(input)
+	deserializer := boundedbincode.NewDeserializer(input)
 	obj, err := DeserializeTransactionError(deserializer)
 	if err == nil && deserializer.GetBufferOffset() < uint64(len(input)) {
 		return obj, fmt.Errorf("Some input bytes were not read")
@@ -2610,7 +2611,7 @@ func BincodeDeserializeTransactionStatusMeta(input []byte) (TransactionStatusMet
 		var obj TransactionStatusMeta
 		return obj, fmt.Errorf("Cannot deserialize null array")
 	}
-	deserializer := bincode.NewDeserializer(input)
+	deserializer := boundedbincode.NewDeserializer(input)
 	obj, err := DeserializeTransactionStatusMeta(deserializer)
 	if err == nil && deserializer.GetBufferOffset() < uint64(len(input)) {
 		// return obj, fmt.Errorf("Some input bytes were not read")
